@@ -235,7 +235,8 @@ def _push_block(ctx, lib, fn, item, cap, nel):
     if ok:
         ubb = uis[0]["bb"]
         closed = P(C(H + "::dropped_block", Par(1), site=(b.path, dbs[0]["bb"])))
-        end_idx = B("Mul", B("Add", closed, K(1)), bl)
+        from .pat import OneOf
+        end_idx = OneOf(B("Mul", B("Add", closed, K(1)), bl), B("Add", B("Mul", closed, bl), bl))
         brk = switches_on(root, lambda d: d[0] == "bin" and d[1] in ("Le", "Ge", "Lt", "Gt") and
                           ((m(end_idx, d[2]) and m(head, d[3])) or (m(head, d[2]) and m(end_idx, d[3]))))
         okb = len(brk) == 1
